@@ -181,7 +181,7 @@ func (runInfo *runInfoStruct) invokeMapExpr(expr *ast.MapExpr) {
 			if runInfo.err != nil {
 				return
 			}
-			key = runInfo.rv
+			key = copyOfElement(runInfo.rv)
 			if !isHashable(key) {
 				runInfo.err = newStringError(expr, "type "+hashableTypeString(key)+" cannot be used as map key")
 				runInfo.rv = nilValue
@@ -409,16 +409,16 @@ func (runInfo *runInfoStruct) invokeItemExpr(expr *ast.ItemExpr) {
 	if runInfo.err != nil {
 		return
 	}
+	// (an element that is itself a container is read now, not after the index has run)
 	item := runInfo.rv
+	if item.Kind() == reflect.Interface && !item.IsNil() {
+		item = item.Elem()
+	}
 
 	runInfo.expr = expr.Index
 	runInfo.invokeExpr()
 	if runInfo.err != nil {
 		return
-	}
-
-	if item.Kind() == reflect.Interface && !item.IsNil() {
-		item = item.Elem()
 	}
 
 	switch item.Kind() {
@@ -884,7 +884,7 @@ func (runInfo *runInfoStruct) invokeIncludeExpr(expr *ast.IncludeExpr) {
 	if runInfo.err != nil {
 		return
 	}
-	itemExpr := runInfo.rv
+	itemExpr := copyOfElement(runInfo.rv)
 
 	runInfo.expr = expr.ListExpr
 	runInfo.invokeExpr()
